@@ -37,6 +37,7 @@ def run(chk, tier):
         prog = mir.Program(facts.load_mir(feats))
         cfg = prog.config
         transitions(chk, prog, cfg, "docs" in feats)
+        initial_states(chk, prog, cfg)
         finalisers(chk, prog, cfg)
         constructors(chk, prog, cfg)
         accumulation(chk, prog, cfg)
@@ -225,6 +226,45 @@ def set_value_ok(prog, b, f, v, slot):
         bad = [n for n in names if n.split("::")[-1] not in ("into", "to_vec", "collect", "into_iter", "finalize", "from")]
         return not bad, "unexpected adapter %s on the parameter" % bad
     return False, "new value does not come from the method's parameter"
+
+
+def initial_states(chk, prog, cfg):
+    chk.rule("R17.0", "builders start empty: every function that creates a builder without taking one (Default::default, new, Type::builder*, "
+             "Field::builder, Fields::unit/named/unnamed, Variants::new) leaves every slot None / empty, except VariantBuilder::new's name := its argument")
+    n = 0
+    for f in prog.fn_list:
+        if f["kind"] not in ("AssocFn", "Fn") or "output" not in f:
+            continue
+        bo = builder_of(prog, f["output"])
+        if bo is None or any(builder_of(prog, i) == bo for i in f["inputs"] if prog.ty(i)["k"] in ("adt", "ref")):
+            continue
+        b = prog.body(f["path"])
+        if b is None:
+            continue
+        rt = b.return_term()
+        key = "%s%s" % (mir.strip_generics(f["path"]).replace("scale_info::", ""), _form_suffix(prog, f) if "impl_self_ty" in f else "")
+        n += 1
+        # delegation to another creator (Type::builder() -> TypeBuilder::default())
+        if rt[0] == "call" and not rt[2] and (rt[1]["decl"].endswith("::default") or rt[1]["name"].endswith("::new") or rt[1]["decl"].endswith("Default::default")):
+            chk.ok("R17.0", "initial:" + key, b.where(), "delegates to %s" % rt[1]["name"], cfg)
+            continue
+        if not is_adt_agg(rt, bo):
+            chk.unrecognised("R17.0", "initial:" + key, b.where(), "creator does not end in a %s{..} aggregate: %s" % (bo.split("::")[-1], path_str(rt)[:100]), cfg)
+            continue
+        bad = []
+        for sl in BUILDERS[bo]:
+            v = agg_field(rt, sl)
+            empty = (is_adt_agg(v, "core::option::Option", "None") or is_call(v, "alloc::vec::Vec::new", nargs=0)
+                     or (v[0] == "call" and not v[2] and v[1]["decl"] == "core::default::Default::default"))
+            if bo.endswith("VariantBuilder") and sl == "name" and f["name"] == "new":
+                if v != cr.arg(b, 1):
+                    bad.append("%s := %s" % (sl, path_str(v)[:40]))
+                continue
+            if not empty:
+                bad.append("%s := %s" % (sl, path_str(v)[:40]))
+        chk.expect(not bad, "R17.0", "initial:" + key, b.where(), "non-empty initial slots: %s" % bad if bad else "all slots empty", cfg)
+    chk.floor("R17.0", n, 8, "builder creators: TypeBuilder::default, Type::builder, builder_portable, FieldBuilder::default/new, Field::builder, "
+              "VariantBuilder::new, FieldsBuilder::default, Fields::unit/named/unnamed, Variants::new/default")
 
 
 def finalisers(chk, prog, cfg):
